@@ -22,12 +22,16 @@ RULE = ("product of bases of 2-5 shells (l 0..3, K 1..4 with exponents from {0.0
 ASSUMPTIONS = ["a pair whose distance is within 1e-9 relative of its cutoff is not asserted either way"]
 CHUNK = 8
 TOLS = [1e-16, 1e-12, 1e-8, 1e-4, 0.1, 0.5]
-EXPSETS = [(0.05,), (500.0,), (12.0, 0.7), (500.0, 0.05), (0.7, 12.0, 0.05), (500.0, 12.0, 0.7, 0.05), (12.0, 500.0)]
+EXPSETS = [(0.05,), (500.0,), (12.0, 0.7), (500.0, 0.05), (0.7, 12.0, 0.05), (500.0, 12.0, 0.7, 0.05), (12.0, 500.0),
+           (0.7, 500.0, 12.0)]
 # (l, expset index, M)
 SHELLSETS = {
     2: [[(0, 0, 1), (0, 3, 2)], [(1, 2, 1), (0, 1, 1)], [(2, 4, 2), (3, 6, 1)], [(0, 5, 1), (1, 0, 2)],
-        [(0, 2, 1), (0, 2, 2)], [(3, 3, 1), (2, 5, 1)]],
-    3: [[(0, 0, 1), (1, 2, 2), (2, 1, 1)], [(0, 3, 1), (0, 4, 2), (3, 6, 1)]],
+        [(0, 2, 1), (0, 2, 2)], [(3, 3, 1), (2, 5, 1)],
+        # 1/alpha_a + 1/alpha_b is dominated by the more diffuse shell: to feel the smallest exponent of a shell whose
+        # smallest exponent is not listed last, its partner must be tight (or unsorted too)
+        [(0, 6, 1), (0, 1, 1)], [(1, 6, 2), (2, 6, 1)], [(0, 7, 1), (1, 1, 1)]],
+    3: [[(0, 0, 1), (1, 2, 2), (2, 1, 1)], [(0, 3, 1), (0, 4, 2), (3, 6, 1)], [(0, 6, 1), (0, 1, 1), (1, 7, 2)]],
     4: [[(0, 0, 1), (1, 2, 1), (0, 5, 2), (2, 6, 1)]],
     5: [[(0, 4, 1), (1, 0, 1), (0, 1, 2), (2, 2, 1), (0, 3, 1)]],
 }
